@@ -568,18 +568,20 @@ enum cc_stat cc_tsttable_iter_next (CC_TSTTableIter *iter, CC_TSTTableEntry **ou
             error = 1;
         }
 
+        if (node->eow && previous_node == node->parent) {
+            /* first arrival at an end-of-word node; if there is nowhere
+             * left to go the next call reports the end */
+            *out                = node->data;
+            iter->current_node  = node;
+            iter->next_node     = error ? NULL : next_node;
+            iter->previous_node = previous_node;
+            return CC_OK;
+        }
         if (error) {
             iter->next_node     = NULL;
             iter->current_node  = NULL;
             iter->previous_node = NULL;
             return CC_ITER_END;
-
-        } else if (node->eow) {
-            *out                = node->data;
-            iter->current_node  = node;
-            iter->next_node     = next_node;
-            iter->previous_node = previous_node;
-            return CC_OK;
         }
 
         previous_node = node;
